@@ -9,7 +9,9 @@ package main
 
 import (
 	"bytes"
+	"cosmossdk.io/math"
 	"encoding/hex"
+	"encoding/json"
 	"fmt"
 	"go/ast"
 	"go/parser"
@@ -285,12 +287,47 @@ func c18Schedules(r *Run, per int, shared bool, shard int) {
 // ---------------------------------------------------------------------------
 // repeated runs / after unrelated histories
 
+// c18RepeatHistories: the schedule histories plus more that only the repeat job uses.
+func c18RepeatHistories() [][]Action {
+	hs := c18Histories()
+	// more histories for this job: deposits by an ordinary and by a short (8-byte) account, sends
+	// with empty and maximal bodies, registry updates with colliding keys
+	hs = append(hs,
+		[]Action{MkDeposit(UserA.Str, math.NewInt(5), DomEth, bytes.Repeat([]byte{0xFF}, 32), "uusdc"), MkSend(UserA.Str, DomEth, bytes.Repeat([]byte{0xFF}, 32), bytes.Repeat([]byte{0xFF}, 8000))},
+		[]Action{MkDeposit(ShortAcct.Str, math.NewInt(3), DomEth, distinct32(0x24), "uusdc"), MkSend(ShortAcct.Str, DomEth, distinct32(0x21), nil), MkSendWithCaller(ShortAcct.Str, DomAvax, distinct32(0x21), []byte("x"), distinct32(0x22))},
+		[]Action{
+			Act("linkTokenPair(5,F0) by A3", &cctptypes.MsgLinkTokenPair{From: TokenCtl.Str, RemoteDomain: 5, RemoteToken: distinct32(0xF0), LocalToken: "UUSDC"}),
+			Act("setMaxBurnAmountPerMessage(UUSDC,9) by A3", &cctptypes.MsgSetMaxBurnAmountPerMessage{From: TokenCtl.Str, LocalToken: "UUSDC", Amount: math.NewInt(9)}),
+			MkDeposit(UserA.Str, math.NewInt(10), DomEth, distinct32(0x24), "uusdc"),
+		})
+	return hs
+}
+
+// C18Solo is `cctpmc c18solo <i>`: one history on a fresh instance in a fresh process.
+func C18Solo(arg string) int {
+	var i int
+	fmt.Sscan(arg, &i)
+	hs := c18RepeatHistories()
+	if i < 0 || i >= len(hs) {
+		return 2
+	}
+	bz, _ := json.Marshal(c18Solo(c18Scenario(), hs[i]))
+	os.Stdout.Write(bz)
+	return 0
+}
+
 func c18Repeat(r *Run) {
 	scn := c18Scenario()
-	hs := c18Histories()
+	hs := c18RepeatHistories()
+	// the reference of every history comes from a FRESH PROCESS that runs nothing else
+	exe, _ := os.Executable()
 	ref := make([][]c18Obs, len(hs))
-	for i, h := range hs {
-		ref[i] = c18Solo(scn, h)
+	for i := range hs {
+		out, err := exec.Command(exe, "c18solo", fmt.Sprint(i)).Output()
+		if err != nil || json.Unmarshal(out, &ref[i]) != nil || len(ref[i]) != len(hs[i]) {
+			r.HarnessError("fresh-process reference for history %d failed: %v %.200s", i, err, out)
+			return
+		}
 	}
 	for rep := 0; rep < 16; rep++ {
 		for i, h := range hs {
@@ -357,14 +394,13 @@ func RaceBodies() int {
 			return w
 		}, g%3)
 	}
-	// one shared keeper
-	base := NewPlainWorld(KindIAVL)
-	base.InitLedger(scn.Ledger)
-	base.InitCCTP(scn.Genesis)
+	// one cctp keeper (and msg server) shared by all instances; every instance has its own
+	// stores and its own auth/bank/fiattokenfactory keepers (see SharedCCTP)
+	sc := NewSharedCCTP()
 	for g := 0; g < 8; g++ {
 		wg.Add(1)
 		go body(func() *World {
-			w := NewSharedWorld(base)
+			w := sc.NewInstance(KindIAVL)
 			w.InitLedger(scn.Ledger)
 			w.InitCCTP(scn.Genesis)
 			return w
@@ -398,10 +434,7 @@ func c18RacePass(r *Run) {
 	text := out.String()
 	r.Evaluations++
 	r.Transitions += 16 * 6 * 3
-	if !strings.Contains(text, "RACEPASS-DONE") {
-		r.HarnessError("race pass did not finish: %v\n%s", err, firstLines(text, 30))
-		return
-	}
+	finished := strings.Contains(text, "RACEPASS-DONE")
 	// data races involving repository frames
 	reports := strings.Split(text, "WARNING: DATA RACE")
 	n := 0
@@ -420,6 +453,18 @@ func c18RacePass(r *Run) {
 			}
 		}
 	}
+	if !finished {
+		// the free-running bodies crashed: a crash inside x/cctp under concurrency is itself the finding
+		tail := text
+		if i := strings.LastIndex(text, "=================="); i >= 0 {
+			tail = text[i:]
+		}
+		if m := frameRe.FindStringSubmatch(tail); m != nil && n == 0 {
+			r.Violate("C18 concurrent instances crashed in "+m[1]+"."+m[2], "free-running pass aborted:\n"+firstLines(tail, 40), Replay{Kind: "schedule", Data: map[string]any{"output": firstLines(tail, 60)}})
+		} else if n == 0 {
+			r.HarnessError("race pass did not finish: %v\n%s", err, firstLines(tail, 30))
+		}
+	}
 	if strings.Contains(text, "RACEPASS-DIVERGED") {
 		r.Violate("C18 concurrent instances diverged from their solo runs", firstLines(text, 20), Replay{Kind: "schedule", Data: map[string]any{"output": firstLines(text, 40)}})
 	}
@@ -435,11 +480,11 @@ func c18RacePass(r *Run) {
 // are both inside dependencies (cosmos-sdk, fiattokenfactory) are counted but
 // not reported: those packages are exercised, not verified.
 func c18RaceInRepo(rep string) bool {
-	for _, l := range strings.Split(rep, "\n") {
-		if strings.Contains(l, "Location is global") && strings.Contains(l, "noble-cctp/x/cctp") {
-			return true
-		}
-	}
+	// The instances of the race pass share only the cctp keeper object and package-level
+	// state; their stores and dependency keepers are their own. A racing access whose
+	// stack passes through a function of x/cctp therefore touches memory that x/cctp
+	// shares between instances (a package-level variable, a keeper field, or something
+	// reachable from them), whichever library performs the final load or store.
 	blocks := strings.Split(rep, "\n\n")
 	for _, b := range blocks {
 		t := strings.TrimSpace(b)
@@ -448,23 +493,12 @@ func c18RaceInRepo(rep string) bool {
 		}
 		for _, l := range strings.Split(t, "\n")[1:] {
 			f := strings.TrimSpace(l)
-			if f == "" || strings.HasPrefix(f, "/") || strings.HasPrefix(f, "<autogenerated>") {
-				continue
-			}
-			// skip runtime and standard-library frames (their import path has no domain element)
-			first := f
-			if i := strings.Index(first, "/"); i >= 0 {
-				first = first[:i]
-			} else if i := strings.Index(first, "."); i >= 0 {
-				first = first[:i]
-			}
-			if !strings.Contains(first, ".") && !strings.HasPrefix(f, "main.") {
-				continue
+			if strings.HasPrefix(f, "main.") {
+				break
 			}
 			if strings.Contains(f, "noble-cctp/x/cctp") {
 				return true
 			}
-			break
 		}
 	}
 	return false
